@@ -20,3 +20,9 @@ def tasks(tier, seed):
         dict(kind="custom", module="props.lemmas", fn="c03_index_lemmas"),
         dict(kind="custom", module="props.lemmas", fn="c07_trade_lemmas"),
     ]
+
+
+def replay(o):
+    from pyvc.concrete import replay_scenario
+
+    return replay_scenario(o)
